@@ -13,6 +13,7 @@ DOCS = {
     "pragma-only": "<!-- pyml disable-next-line md041-->\n", "pragma": "# a\n<!-- pyml disable-next-line md009-->\nb  \n",
     "blank": "\n", "list": "- a\n- b\n\n1. c\n", "code": "```py\nx\n```\n", "lv0": "# a\n\nb   \n", "lv1": "#  a\n", "lv01": "#  a\n\nb   \n",
     "formfeed": "# a\n\nb\x0cc\nd\u2028e\n", "lv2": "# a\n\n- x\n  * y\n", "lv012": "#  a\n\n```\nx\n```\n\n~~~\ny\n~~~\n\nb   \n", "tab": "a\tb\n", "multi": "a\n\n\n\nb\n",
+    "tok-md001": "# a\n\n### b\n", "tok-md004": "- a\n* b\n\ntext  \n",
 }
 ALLCB = ("start", "token", "line", "complete")
 
@@ -203,6 +204,13 @@ def run(ctx):
                 seen_first.add(fname)
                 if first_tokens[fname] is not None and wtoks != first_tokens[fname]:
                     ctx.violation("fix-shape", inp, f"first phase of {fname}: tokens delivered differ from the parse of the file ({len(wtoks)} vs {len(first_tokens[fname])})", group="fix-first-tokens")
+            # a line phase: the tokens are the stream of the file whose lines are delivered (as seen by a recorder sorted before the rules)
+            if not is_token_phase and wit is not None and wit < "MD" and wtoks and not any("\r" in DOCS[k] for k in docs):
+                want = expected_tokens("\n".join(wlines), True)
+                if want is not None and wtoks != want:
+                    j = next((i for i, (a, b) in enumerate(zip(wtoks, want)) if a != b), min(len(wtoks), len(want)))
+                    ctx.violation("fix-shape", dict(inp, level=L, phase="line"), f"line phase of {fname}: the tokens delivered are not the stream of the lines delivered ({len(wtoks)} tokens vs {len(want)}; first difference at #{j}: "
+                                  f"{wtoks[j] if j < len(wtoks) else None!r} vs {want[j] if j < len(want) else None!r})", group="fix-line-phase-tokens")
             # the property per recorder
             for r in recs:
                 pid = r[0].upper()
@@ -265,6 +273,6 @@ def run(ctx):
     ]
     return ctx.finish(
         level="proof",
-        rule="18 documents (empty, one line, no final newline, CR-LF, pragma-only, fixable at levels 0/1/2) x runs of 1-3 files x scan (6 recorders incl. token-only, line-only, disabled, -d/-e) and fix (7 recorders: levels 0,1,2,3,5 sorted first/last, with/without next_line, token-only, not fix-capable; 4-6 variants); non-trivial = every run; distinct by (documents, recorder set, switches)",
+        rule="20 documents (empty, one line, no final newline, CR-LF, pragma-only, fixable at levels 0/1/2) x runs of 1-3 files x scan (6 recorders incl. token-only, line-only, disabled, -d/-e) and fix (7 recorders: levels 0,1,2,3,5 sorted first/last, with/without next_line, token-only, not fix-capable; 4-6 variants); non-trivial = every run; distinct by (documents, recorder set, switches)",
         assumptions=["'pass' is read as one phase: the token phase of fix mode delivers no lines and ends with completed_file(-1) by design"],
     )
